@@ -227,16 +227,26 @@ class Exec:
         plan = self.plan
         workers = []
         try:
-            ev_shared = model.build_evaluator(plan["spec"]) if sess.get("share_evaluator", True) else None
+            spec = model.spec_variant(plan["spec"], sess.get("spec_variant"))
+            ev_shared = model.build_evaluator(spec) if sess.get("share_evaluator", True) else None
             aggs = []
             for fname in sess["aggs"]:
                 f = plan["files"][fname]
-                ev = ev_shared if ev_shared is not None else model.build_evaluator(plan["spec"])
+                ev = ev_shared if ev_shared is not None else model.build_evaluator(spec)
                 target = self.path(fname)
                 if sess.get("path_kind") == "path":
                     target = agg_mod.Path(target)
                 s.current.ctx["file"] = fname
-                a = agg_mod.Panoptica_Aggregator(ev, target, log_times=bool(f.get("log_times")))
+                try:
+                    a = agg_mod.Panoptica_Aggregator(ev, target, log_times=bool(f.get("log_times")))
+                except AssertionError:
+                    if sess.get("spec_variant"):
+                        # a restart that declares the setup differently may be refused
+                        self.note("refused_different_setup")
+                        return True
+                    raise
+                if sess.get("spec_variant"):
+                    self.note("accepted_reordered_setup")
                 aggs.append(a)
             for i, ops in enumerate(sess["tasks"]):
                 workers.append(s.spawn(f"{group.name}.w{i}", group, self._worker, sess, aggs, ops))
@@ -256,7 +266,12 @@ class Exec:
         s = self.sched
         t = s.current
         plan = self.plan
-        procs = plan["knobs"].get("mode") == "procs"
+        mode = plan["knobs"].get("mode")
+        procs = mode == "procs"
+        if mode == "forked":
+            # a long-lived worker forked after the aggregators were built: it inherits its own
+            # copy of every object and keeps it across all the calls it serves
+            aggs = pickle.loads(pickle.dumps(aggs))
         for op in ops:
             kind = op[0]
             fname = sess["aggs"][op[1]]
@@ -288,7 +303,12 @@ class Exec:
                         self.note("stat_on_header_only_raised")
                     continue
                 after = self.complete_subjects(fname)
-                self._check_stat(st, fname, before, after)
+                try:
+                    self._check_stat(st, fname, before, after)
+                except SimInterrupt:
+                    raise
+                except Exception as e:  # noqa: BLE001 - the statistics object itself misbehaves
+                    self.v("stat_complete_rows", f"inspecting the statistics object raised {type(e).__name__}: {str(e)[:160]}")
         return True
 
     def _check_stat(self, st, fname, before, after):
@@ -575,6 +595,11 @@ class Exec:
             self.v("loader_no_exception", f"Panoptica_Statistic.from_file raised {type(e).__name__}: {str(e)[:200]}")
             return
         file_names = [r[0] for r in rows[1:]]
+        try:
+            list(st.subjectnames), list(st.groupnames), list(st.metricnames)
+        except Exception as e:  # noqa: BLE001
+            self.v("names", f"statistics object accessors raised {type(e).__name__}: {str(e)[:160]}")
+            return
         if list(st.subjectnames) != file_names:
             self.v("names", f"loader subjects {list(st.subjectnames)!r} != rows in the file {file_names!r}")
             return
@@ -586,7 +611,6 @@ class Exec:
             return
         # model table: expected loader value per (subject, group, metric) from the reported results
         table = {}
-        n_finite = n_missing = 0
         for sn in file_names:
             rep = self.reported.get((fname, sn))
             if rep is None:
@@ -604,50 +628,21 @@ class Exec:
                         exp = None if c[1] == "nan" else struct_unhex(c[1])
                         if exp is not None and math.isinf(exp):
                             exp = None
-                    elif c[0] == "b":
-                        exp = "skip"
                     else:
                         exp = "skip"
                     table[sn][g][m] = exp
-        for sn, tg in table.items():
-            idx = file_names.index(sn)
-            try:
-                one = st.get_one_subject(sn)
-            except Exception as e:  # noqa: BLE001
-                self.v("one_subject", f"get_one_subject({sn!r}) raised {type(e).__name__}: {str(e)[:120]}")
-                one = None
-            for g, tm in tg.items():
-                for m, exp in tm.items():
-                    if exp == "skip":
-                        self.note("value_kind_skipped")
-                        continue
-                    got = st.get(g, m)[idx]
-                    if m == TIME_KEY and exp is not None:
-                        pass
-                    if exp is None:
-                        n_missing += 1
-                        if got is not None:
-                            self.v("value_roundtrip", f"{sn!r}/{g!r}/{m}: result reported a missing/NaN/inf value, loader returned {got!r}")
-                    else:
-                        n_finite += 1
-                        if not (isinstance(got, float) and model.float_bits(got) == model.float_bits(exp)):
-                            clause = "value_roundtrip"
-                            others = {model.float_bits(v) for sn2 in table for g2 in table[sn2] for m2, v in table[sn2][g2].items() if isinstance(v, float) and (sn2, g2, m2) != (sn, g, m)}
-                            if isinstance(got, float) and model.float_bits(got) in others:
-                                clause = "no_shift"
-                            self.v(clause, f"{sn!r}/{g!r}/{m}: result reported {exp!r}, loader returned {got!r}")
-                    if one is not None and not _same(one.get(g, {}).get(m, "absent"), exp):
-                        self.v("one_subject", f"get_one_subject({sn!r})[{g!r}][{m}] = {one.get(g, {}).get(m, 'absent')!r}, expected {exp!r}")
         self.note("loader_checked")
-        self.note("loader_finite_values", n_finite)
-        self.note("loader_missing_values", n_missing)
         if len(ref["groups"]) >= 2:
             self.note("loader_multi_group")
-        if plan.get("check_summary", True) and all(sn in table for sn in file_names):
-            self.summary_oracles(st, st_mod, fname, file_names, table, ref, rows)
+        if len(file_names) >= 2 or len(ref["groups"]) >= 2:
+            self.nontrivial = True
+        self.query_history(st, st_mod, fname, file_names, table, ref, rows)
 
-    def summary_oracles(self, st, st_mod, fname, file_names, table, ref, rows):
-        """C20: summaries are the statistics of exactly the finite recorded values."""
+    # a seeded history of queries on one statistics object, each judged against the model
+    def query_history(self, st, st_mod, fname, file_names, table, ref, rows):
+        rng = self.rng_fault
+        complete = all(sn in table for sn in file_names)
+
         def stats(vals):
             n = len(vals)
             avg = math.fsum(vals) / n
@@ -655,60 +650,188 @@ class Exec:
             return avg, math.sqrt(var), min(vals), max(vals)
 
         def close(a, b, scale):
-            return abs(a - b) <= 1e-12 * max(1.0, abs(scale)) or a == b
+            return a == b or abs(a - b) <= 1e-12 * max(1.0, abs(scale))
 
-        model_avgs = {}
-        defined_all = True
+        col = {}
+        smodel = {}
+        defined_all = complete
         for g in ref["groups"]:
             for m in ref["keys"]:
-                col = [table[sn][g][m] for sn in file_names]
-                if any(c == "skip" for c in col):
+                if not complete:
+                    continue
+                c = [table[sn][g][m] for sn in file_names]
+                col[(g, m)] = c
+                if any(x == "skip" for x in c):
                     defined_all = False
                     continue
-                vals = [c for c in col if c is not None]
+                vals = [x for x in c if x is not None]
                 if not vals:
                     defined_all = False
                     self.note("summary_all_missing_column")
                     continue
-                if len(vals) < len(col):
-                    self.note("summary_with_missing")
                 big = max(abs(x) for x in vals)
                 if big > 1e150:
-                    defined_all = False
-                    continue  # squares overflow in any implementation of the standard deviation
-                avg, std, mn, mx = stats(vals)
-                model_avgs[(g, m)] = avg
-                try:
-                    sm = st.get_summary(g, m)
-                except Exception as e:  # noqa: BLE001
-                    self.v("summary", f"get_summary({g!r},{m}) raised {type(e).__name__}: {str(e)[:120]}")
+                    defined_all = False  # squares overflow in any implementation of the standard deviation
                     continue
-                if sm.min != mn or sm.max != mx:
-                    self.v("summary", f"{g!r}/{m}: min/max {sm.min!r}/{sm.max!r}, expected {mn!r}/{mx!r} over {len(vals)} finite values")
-                if not close(sm.avg, avg, big) or not close(sm.std, std, big):
-                    self.v("summary", f"{g!r}/{m}: avg/std {sm.avg!r}/{sm.std!r}, expected {avg!r}/{std!r} over {len(vals)} finite values")
+                if len(vals) < len(c):
+                    self.note("summary_with_missing")
+                if len(vals) >= 3 and big > 0 and (max(vals) - min(vals)) < 1e-6 * big and max(vals) != min(vals):
+                    self.note("summary_cancellation_prone_column")
+                smodel[(g, m)] = stats(vals) + (big, len(vals))
+
+        def check_summary(sm, g, m, clause, where):
+            avg, std, mn, mx, big, n = smodel[(g, m)]
+            try:
+                got = (sm.avg, sm.std, sm.min, sm.max)
+            except Exception as e:  # noqa: BLE001
+                self.v(clause, f"{where} {g!r}/{m}: reading the summary raised {type(e).__name__}")
+                return
+            if got[2] != mn or got[3] != mx:
+                self.v(clause, f"{where} {g!r}/{m}: min/max {got[2]!r}/{got[3]!r}, expected {mn!r}/{mx!r} over {n} finite values")
+            elif not close(got[0], avg, big) or not close(got[1], std, big):
+                self.v(clause, f"{where} {g!r}/{m}: avg/std {got[0]!r}/{got[1]!r}, expected {avg!r}/{std!r} over {n} finite values")
+            else:
                 self.note("summary_checked")
-        if defined_all and ref["groups"]:
+
+        def q_one(sn):
+            try:
+                one = st.get_one_subject(sn)
+            except Exception as e:  # noqa: BLE001
+                self.v("one_subject", f"get_one_subject({sn!r}) raised {type(e).__name__}: {str(e)[:120]}")
+                return
+            for g, tm in table[sn].items():
+                for m, exp in tm.items():
+                    got = one.get(g, {}).get(m, "absent") if isinstance(one, dict) else "absent"
+                    if not _same(got, exp):
+                        self.v("one_subject", f"get_one_subject({sn!r})[{g!r}][{m}] = {got!r}, expected {exp!r} (query #{self._qn})")
+                        return
+            self.note("one_subject_checked")
+
+        def q_get(g, m, remove):
+            try:
+                got = list(st.get(g, m, remove_nones=True) if remove else st.get(g, m))
+            except Exception as e:  # noqa: BLE001
+                self.v("value_roundtrip", f"{g!r}/{m}: Panoptica_Statistic.get raised {type(e).__name__}: {str(e)[:120]}")
+                return
+            exp = [(sn, table[sn][g][m]) for sn in file_names if sn in table]
+            if remove:
+                if not complete or any(e == "skip" for _, e in exp):
+                    return
+                want = [e for _, e in exp if e is not None]
+                if len(got) != len(want) or any(not _same(a, b) for a, b in zip(got, want)):
+                    self.v("summary", f"{g!r}/{m}: get(remove_nones=True) returned {len(got)} values, the model has {len(want)} finite values (or they differ)")
+                return
+            if len(got) != len(file_names):
+                self.v("value_roundtrip", f"{g!r}/{m}: loader returned {len(got)} values for {len(file_names)} rows")
+                return
+            for idx, sn in enumerate(file_names):
+                if sn not in table:
+                    continue
+                e = table[sn][g][m]
+                if e == "skip":
+                    self.note("value_kind_skipped")
+                    continue
+                gv = got[idx]
+                if e is None:
+                    self.note("loader_missing_values")
+                    if gv is not None:
+                        self.v("value_roundtrip", f"{sn!r}/{g!r}/{m}: result reported a missing/NaN/inf value, loader returned {gv!r}")
+                else:
+                    self.note("loader_finite_values")
+                    if not (isinstance(gv, float) and model.float_bits(gv) == model.float_bits(e)):
+                        clause = "value_roundtrip"
+                        if isinstance(gv, float):
+                            others = {model.float_bits(v) for s2 in table for g2 in table[s2] for m2, v in table[s2][g2].items() if isinstance(v, float) and (s2, g2, m2) != (sn, g, m)}
+                            if model.float_bits(gv) in others:
+                                clause = "no_shift"
+                        self.v(clause, f"{sn!r}/{g!r}/{m}: result reported {e!r}, loader returned {gv!r} (query #{self._qn})")
+
+        def q_summary(g, m):
+            if (g, m) not in smodel:
+                return
+            try:
+                sm = st.get_summary(g, m)
+            except Exception as e:  # noqa: BLE001
+                self.v("summary", f"get_summary({g!r},{m}) raised {type(e).__name__}: {str(e)[:120]}")
+                return
+            check_summary(sm, g, m, "summary", "get_summary")
+
+        def q_across():
+            if not defined_all or not ref["groups"]:
+                return
             try:
                 acr = st.get_summary_across_groups()
             except Exception as e:  # noqa: BLE001
                 self.v("across_groups", f"get_summary_across_groups raised {type(e).__name__}: {str(e)[:120]}")
-                acr = None
-            if acr is not None:
-                for m in ref["keys"]:
-                    avgs = [model_avgs[(g, m)] for g in ref["groups"]]
-                    big = max(abs(x) for x in avgs)
-                    avg, std, mn, mx = stats(avgs)
+                return
+            check_across(acr, "get_summary_across_groups")
+
+        def check_across(acr, where):
+            for m in ref["keys"]:
+                avgs = [smodel[(g, m)][0] for g in ref["groups"]]
+                big = max(abs(x) for x in avgs)
+                big = max(big, max(smodel[(g, m)][4] for g in ref["groups"]))
+                avg, std, mn, mx = stats(avgs)
+                try:
                     sm = acr[m]
-                    if not (close(sm.avg, avg, big) and close(sm.std, std, big) and close(sm.min, mn, big) and close(sm.max, mx, big)):
-                        self.v("across_groups", f"{m}: across-groups summary {sm.avg!r},{sm.std!r},{sm.min!r},{sm.max!r} expected {avg!r},{std!r},{mn!r},{mx!r}")
-                self.note("across_groups_checked")
+                    got = (sm.avg, sm.std, sm.min, sm.max)
+                except Exception as e:  # noqa: BLE001
+                    self.v("across_groups", f"{where}: {m} missing or unreadable ({type(e).__name__})")
+                    continue
+                if not (close(got[0], avg, big) and close(got[1], std, big) and close(got[2], mn, big) and close(got[3], mx, big)):
+                    self.v("across_groups", f"{where} {m}: {got!r}, expected {(avg, std, mn, mx)!r}")
+                else:
+                    self.note("across_groups_checked")
+
+        def q_dict():
+            if not defined_all or not ref["groups"]:
+                return
+            inc = rng.random() < 0.5
+            try:
+                d = st.get_summary_dict(include_across_group=inc)
+            except Exception as e:  # noqa: BLE001
+                self.v("summary", f"get_summary_dict raised {type(e).__name__}: {str(e)[:120]}")
+                return
+            for g in ref["groups"]:
+                for m in ref["keys"]:
+                    try:
+                        sm = d[g][m]
+                    except Exception:  # noqa: BLE001
+                        self.v("summary", f"get_summary_dict lacks {g!r}/{m}")
+                        continue
+                    check_summary(sm, g, m, "summary", "get_summary_dict")
+            if inc and "across_groups" not in ref["groups"]:
+                if "across_groups" in d:
+                    check_across(d["across_groups"], "get_summary_dict")
+                else:
+                    self.v("across_groups", "get_summary_dict(include_across_group=True) has no across_groups entry")
+
+        queries = []
+        for sn in table:
+            queries.append((q_one, (sn,)))
+        for g in ref["groups"]:
+            for m in ref["keys"]:
+                queries.append((q_get, (g, m, False)))
+                queries.append((q_summary, (g, m)))
+                if rng.random() < 0.3:
+                    queries.append((q_get, (g, m, True)))
+        queries.append((q_across, ()))
+        queries.append((q_dict, ()))
+        self._qn = 0
+        for rnd in range(2):
+            rng.shuffle(queries)
+            for fn, a in queries:
+                self._qn += 1
+                fn(*a)
+        self.note("query_history_len", self._qn)
         # order independence: the same rows in another order give the same summaries
-        if len(rows) > 2:
+        if complete and len(rows) > 2:
             import csv
 
             perm = rows[1:]
-            self.rng_fault.shuffle(perm)
+            rng.shuffle(perm)
+            if perm == rows[1:]:
+                perm.reverse()
             p2 = self.path("perm_" + fname)
             with open(p2, "w", encoding="utf8", newline="") as fh:
                 wr = csv.writer(fh, delimiter="\t", lineterminator="\n")
@@ -720,13 +843,23 @@ class Exec:
             except Exception as e:  # noqa: BLE001
                 self.v("order_independent", f"loader failed on permuted rows: {type(e).__name__}")
                 return
-            for (g, m) in model_avgs:
-                a, b = st.get_summary(g, m), st2.get_summary(g, m)
-                big = max(abs(a.min), abs(a.max))
-                if a.min != b.min or a.max != b.max or not close(a.avg, b.avg, big) or not close(a.std, b.std, big):
+            for (g, m) in smodel:
+                try:
+                    a, b = st.get_summary(g, m), st2.get_summary(g, m)
+                    big = smodel[(g, m)][4]
+                    same = a.min == b.min and a.max == b.max and close(a.avg, b.avg, big) and close(a.std, b.std, big)
+                except Exception as e:  # noqa: BLE001
+                    self.v("order_independent", f"{g!r}/{m}: get_summary raised {type(e).__name__} on original or permuted rows")
+                    continue
+                if not same:
                     self.v("order_independent", f"{g!r}/{m}: summary depends on row order")
             for sn in file_names:
-                if not _same_tree(st.get_one_subject(sn), st2.get_one_subject(sn)):
+                try:
+                    same = _same_tree(st.get_one_subject(sn), st2.get_one_subject(sn))
+                except Exception as e:  # noqa: BLE001
+                    self.v("order_independent", f"get_one_subject({sn!r}) raised {type(e).__name__} on original or permuted rows")
+                    continue
+                if not same:
                     self.v("order_independent", f"get_one_subject({sn!r}) depends on row order")
             self.note("order_checked")
 
